@@ -107,6 +107,76 @@ def opFn (j : Json) : Except String Json := do
     let a1 ← argStr j 1
     let a2 ← argListStr j 2
     return Json.mkObj [("r", jstr (Pinned.Funcs.metadata_doc a0 a1 a2))]
+  if name == "address_str" then
+    let a0 ← argStr j 0
+    let a1 ← argListStr j 1
+    let a2 ← argStr j 2
+    let a3 ← argStr j 3
+    let a4 ← argBool j 4
+    return Json.mkObj [("r", jstr (Pinned.Funcs.address_str a0 a1 a2 a3 a4))]
+  if name == "address_module_alias" then
+    let a0 ← argStr j 0
+    let a1 ← argListStr j 1
+    let a2 ← argListStr j 2
+    let a3 ← argStr j 3
+    if !(Pinned.Funcs.address_module_alias_ok a0 a1 a2 a3) then return Json.mkObj [("r", Json.mkObj [("raised", Json.str "IndexError")])]
+    return Json.mkObj [("r", jstr (Pinned.Funcs.address_module_alias a0 a1 a2 a3))]
+  if name == "address_proto" then
+    let a0 ← argListStr j 0
+    let a1 ← argListStr j 1
+    let a2 ← argStr j 2
+    return Json.mkObj [("r", jstr (Pinned.Funcs.address_proto a0 a1 a2))]
+  if name == "address_proto_package" then
+    let a0 ← argListStr j 0
+    return Json.mkObj [("r", jstr (Pinned.Funcs.address_proto_package a0))]
+  if name == "address_versioned_package" then
+    let a0 ← argListStr j 0
+    if !(Pinned.Funcs.address_versioned_package_ok a0) then return Json.mkObj [("r", Json.mkObj [("raised", Json.str "IndexError")])]
+    return Json.mkObj [("r", (fun xs => jarr (xs.map jstr)) (Pinned.Funcs.address_versioned_package a0))]
+  if name == "address_subpackage" then
+    let a0 ← argListStr j 0
+    let a1 ← argStr j 1
+    return Json.mkObj [("r", (fun xs => jarr (xs.map jstr)) (Pinned.Funcs.address_subpackage a0 a1))]
+  if name == "address_python_import" then
+    let a0 ← argListStr j 0
+    let a1 ← argStr j 1
+    let a2 ← argListStr j 2
+    let a3 ← argStr j 3
+    let a4 ← argStr j 4
+    let a5 ← argBool j 5
+    let a6 ← argStr j 6
+    let a7 ← argListStr j 7
+    let a8 ← argBool j 8
+    let a9 ← argListStr j 9
+    let a10 ← argStr j 10
+    return Json.mkObj [("r", (fun (i : PyRt.PyImport) => Json.mkObj [("package", jarr (i.package.map jstr)), ("module", jstr i.module), ("alias", jstr i.alias)]) (Pinned.Funcs.address_python_import a0 a1 a2 a3 a4 a5 a6 a7 a8 a9 a10))]
+  if name == "address_rel" then
+    let a0 ← argListStr j 0
+    let a1 ← argStr j 1
+    let a2 ← argListStr j 2
+    let a3 ← argStr j 3
+    let a4 ← argListStr j 4
+    let a5 ← argStr j 5
+    let a6 ← argListStr j 6
+    let a7 ← argStr j 7
+    let a8 ← argStr j 8
+    if !(Pinned.Funcs.address_rel_ok a0 a1 a2 a3 a4 a5 a6 a7 a8) then return Json.mkObj [("r", Json.mkObj [("raised", Json.str "IndexError")])]
+    return Json.mkObj [("r", jstr (Pinned.Funcs.address_rel a0 a1 a2 a3 a4 a5 a6 a7 a8))]
+  if name == "address_sphinx" then
+    let a0 ← argListStr j 0
+    let a1 ← argStr j 1
+    let a2 ← argListStr j 2
+    let a3 ← argStr j 3
+    let a4 ← argListStr j 4
+    let a5 ← argStr j 5
+    let a6 ← argStr j 6
+    let a7 ← argBool j 7
+    let a8 ← argStr j 8
+    let a9 ← argListStr j 9
+    let a10 ← argBool j 10
+    let a11 ← argListStr j 11
+    let a12 ← argStr j 12
+    return Json.mkObj [("r", jstr (Pinned.Funcs.address_sphinx a0 a1 a2 a3 a4 a5 a6 a7 a8 a9 a10 a11 a12))]
   throw s!"unknown translated function {name}"
 
 def opsFuncs : List (String × (Json → Except String Json)) := [("fn", opFn)]
